@@ -200,7 +200,7 @@ var specs = []*spec{
 		Fields: []field{u("Countdown", 24)}},
 	{Pkg: pkgFW, Name: "DevRebootCountdownAns", CID: 0x03, Up: true, New: func() payload { return &fw.DevRebootCountdownAnsPayload{} }, Fixed: 3,
 		Fields: []field{u("Countdown", 24)}},
-	{Pkg: pkgFW, Name: "DevUpgradeImageReq", CID: 0x04, New: func() payload { return &fw.DevUpgradeImageReqPayload{} }, Fixed: 0, K5: true},
+	{Pkg: pkgFW, Name: "DevUpgradeImageReq", CID: 0x04, New: func() payload { return &fw.DevUpgradeImageReqPayload{} }, Fixed: 0},
 	{Pkg: pkgFW, Name: "DevUpgradeImageAns", CID: 0x04, Up: true, New: func() payload { return &fw.DevUpgradeImageAnsPayload{} },
 		Fields: []field{u("Status.UpImageStatus", 2),
 			{Path: "nextFirmwareVersion", Kind: kFWVer, Bits: 32, Present: func(v map[string]uint64) bool { return v["Status.UpImageStatus"] == 3 }}},
@@ -210,7 +210,7 @@ var specs = []*spec{
 			}
 			return 1
 		}},
-	{Pkg: pkgFW, Name: "DevDeleteImageReq", CID: 0x05, New: func() payload { return &fw.DevDeleteImageReqPayload{} }, Fixed: 4, K5: true,
+	{Pkg: pkgFW, Name: "DevDeleteImageReq", CID: 0x05, New: func() payload { return &fw.DevDeleteImageReqPayload{} }, Fixed: 4,
 		Fields: []field{u("FirmwareToDeleteVersion", 32)}},
 	{Pkg: pkgFW, Name: "DevDeleteImageAns", CID: 0x05, Up: true, New: func() payload { return &fw.DevDeleteImageAnsPayload{} }, Fixed: 1,
 		Fields: []field{u("Status.ErrorInvalidVersion", 1), u("Status.ErrorNoValidImage", 1)}},
